@@ -15,6 +15,12 @@ def logvar(name):
     """symbolic real E (an energy / log-prefactor); y_E = exp(E/2) > 0 is its monomial variable"""
     E = z3.Real(name)
     y = z3.Real('y_' + name)
+    # exp is strictly increasing: order and equality of the log-variables and of their monomial variables agree (without this a
+    # branch on energies, e.g. allclose(E, E[0]), is feasible for the solver although the y values are pinned apart)
+    for n2, (E2, y2) in ENG.logv.items():
+        if n2 != name:
+            ENG.assumes.append(z3.And((E < E2) == (y < y2), (E == E2) == (y == y2)))
+    ENG.assumes.append(z3.And((E < 0) == (y < 1), (E == 0) == (y == 1)))
     ENG.logv[name] = (E, y)
     ENG.assumes.append(y > 0)
     return Sym(E, {'lin': (Fraction(0), {name: Fraction(1)})})
